@@ -204,6 +204,27 @@ pub fn c13(cx: &mut Ctx) {
     }
     let n = if cx.thorough { 8000 } else { 800 };
     chains(cx, 13, n);
+    // the size ladder over the credentials themselves: Cookie / Authorization values of every length (and a long
+    // ordinary field beside them), redirected to another host and within the host
+    for l in super::ladder(cx.thorough, 65536) {
+        let val: Vec<u8> = (0..l.max(1)).map(|i| b'a' + (i % 26) as u8).collect();
+        for (ti, t) in ["http://b.test/t", "/same"].iter().enumerate() {
+            cx.case("ladder");
+            let hs: Vec<(&str, &[u8])> = if ti == 0 { vec![("authorization", &val), ("x-keep", &val), ("cookie", &val)] } else { vec![("cookie", b"a=1"), ("x-keep", b"1"), ("cookie", &val), ("authorization", &val)] };
+            if cx.rec.new_flow(&format!("GET HTTP/1.1 http://a.test/o {}", super::hdrs(&hs))) != "ok" { continue; }
+            let h = Hop { status: 302, locations: vec![t.as_bytes().to_vec()], body: false };
+            cx.op("uri?"); cx.op("method?"); cx.op("proceed"); cx.op("write 300000"); cx.op("proceed");
+            if cx.rec.state() != "recvResponse" { continue; }
+            cx.op(&format!("resp {}", hx(&hop_head(&h))));
+            cx.op("proceed");
+            if cx.rec.state() != "redirect" { continue; }
+            if !cx.op(&format!("follow {}", if l % 2 == 0 { "samehost" } else { "never" })).starts_with("flow ") { continue; }
+            cx.op("uri?");
+            cx.op("proceed");
+            cx.op("write 300000");
+            cx.op("canproceed");
+        }
+    }
 }
 
 pub fn c14(cx: &mut Ctx) {
@@ -243,6 +264,29 @@ pub fn c14(cx: &mut Ctx) {
             if cx.op("follow never").starts_with("flow ") { cx.op("uri?"); cx.op("proceed"); cx.op("write 65536"); }
         }
     }
+    // long Location values that are no text: bytes that are no UTF-8, UTF-8 beyond ASCII, with a multi-byte
+    // character across every offset a bounded echo of the value might cut at (64, 128, 256, 512, 1024)
+    {
+        let mut longs: Vec<Vec<u8>> = vec![];
+        for total in [64usize, 128, 256, 512, 1024] {
+            for lead in 0..3usize {
+                let mut v = b"/".to_vec(); v.extend(std::iter::repeat(b'p').take(lead)); v.extend(std::iter::repeat(0xffu8).take(total));
+                longs.push(v);
+                let mut v = b"/".to_vec(); v.extend(std::iter::repeat(b'p').take(lead)); for _ in 0..total { v.extend_from_slice("\u{e9}".as_bytes()); }
+                longs.push(v);
+            }
+        }
+        let mut v = b"/ok/".to_vec(); v.extend(std::iter::repeat(b'a').take(300)); v.push(0xe9);
+        longs.push(v);
+        for l in longs {
+            cx.case("badlong");
+            if cx.rec.new_flow("GET HTTP/1.1 http://a.test/ 0") != "ok" { continue; }
+            let h = Hop { status: 302, locations: vec![l], body: false };
+            if !exchange_to_redirect(cx, &h) { continue; }
+            cx.op("follow never");
+            cx.op("follow samehost");
+        }
+    }
     for locs in [vec![], vec![b"/caf\xe9".to_vec()], vec![b"/ok".to_vec(), b"\xff".to_vec()]] {
         cx.case("bad");
         if cx.rec.new_flow("GET HTTP/1.1 http://a.test/ 0") != "ok" { continue; }
@@ -253,6 +297,20 @@ pub fn c14(cx: &mut Ctx) {
     }
     let n = if cx.thorough { 8000 } else { 800 };
     chains(cx, 14, n);
+    // the size ladder over the Location value: a long path, a long query, a long host, many dot segments
+    for l in super::ladder(cx.thorough, 16384) {
+        let fill: String = (0..l).map(|i| (b'a' + (i % 26) as u8) as char).collect();
+        let dots = "../".repeat(l.min(3000));
+        let segs = "s/".repeat(l.min(3000));
+        for (li, loc) in [format!("/{}", fill), format!("?{}", fill), format!("http://{}.test/x", fill), format!("{}g", dots), format!("/{}{}g", segs, dots), format!("{}#{}", "x", fill)].iter().enumerate() {
+            cx.case("ladder");
+            let _ = li;
+            if cx.rec.new_flow("GET HTTP/1.1 http://a.test/b/c/d?q 0") != "ok" { continue; }
+            let h = Hop { status: 302, locations: vec![loc.as_bytes().to_vec()], body: false };
+            if !exchange_to_redirect(cx, &h) { continue; }
+            if cx.op("follow never").starts_with("flow ") { cx.op("uri?"); cx.op("proceed"); cx.op("write 300000"); cx.op("canproceed"); }
+        }
+    }
 }
 
 pub fn c15(cx: &mut Ctx) {
